@@ -110,6 +110,18 @@ def gen(rp, rw, tier):
 
     for _ in range(rp.choice([2, 3, 4])):
         rp.choice([add_dt, add_dt, add_dt, add_date, add_dur, add_iv])()
+    if rp.random() < 0.12:
+        # two values whose zones are more than a day apart (+14:00 against -11:00 / -12:00) and whose
+        # instants are closer than that: the one that is *earlier* carries the *later* calendar date
+        base = rp.choice(clocks) + _delta(rp)
+        base = max(min(base, tzdb.year_start_us(9990)), tzdb.year_start_us(3))
+        for z, d in ((rp.choice(["Pacific/Kiritimati", 50400, 49500]), 0),
+                     (rp.choice(["Etc/GMT+12", "Pacific/Pago_Pago", -43200, -39600]), rp.choice([-1, 1]) * rp.randrange(1, 3500 * 10**6))):
+            inst = base + d
+            f, _, _ = tzdb.render(z, inst)
+            ts = tzdb.wall_to_instants(z, f)
+            pool.append({"$": "dt", "f": f, "tz": z, "fold": 0 if (len(ts) == 2 and inst == ts[0]) else 1})
+            meta.append({"kind": "dt", "inst": inst, "zone": z})
     if not any(m["kind"] == "dt" for m in meta):
         add_dt()
     dts = [i for i, m in enumerate(meta) if m["kind"] == "dt"]
